@@ -1,7 +1,7 @@
 import HdVerif.Model.Json
 import HdVerif.Model.SegGeom
-import HdVerif.Model.SegFrames
-open Lean HdVerif HdVerif.Drv HdVerif.Gen HdVerif.SegGeom HdVerif.SegFrames
+import HdVerif.Model.SegFrameLoop
+open Lean HdVerif HdVerif.Drv HdVerif.Gen HdVerif.SegGeom HdVerif.SegFrameLoop
 
 def v3OfList (l : List Rat) : Except String V3 :=
   match l with
